@@ -43,6 +43,8 @@ func runC16(c *report.Ctx) {
 	checkRuntimeAPIAddress(c)
 	c.Clause("7 producers of process environments")
 	checkEnvProducers(c)
+	checkLookupEnvPresence(c)
+	checkOptionalReservedStores(c)
 }
 
 func checkMapUnion(c *report.Ctx) {
